@@ -17,6 +17,21 @@ def describe(f):
     except Exception as e:
         out["charge_exc"] = type(e).__name__
     out["density"] = f.density
+    # masses of the atoms as written, and of the same atoms with every isotope replaced by its natural element (ion
+    # charge kept), straight from the atoms: what an '@<d>n' tag is defined by
+    from periodictable import core
+    mw = mn = 0.0
+    try:
+        for a, c in f.atoms.items():
+            q = a.charge if core.ision(a) else 0
+            base = a.element if core.ision(a) else a
+            el = base.element if core.isisotope(base) else base
+            nat = el.ion[q] if q else el
+            mw += c * a.mass
+            mn += c * nat.mass
+        out["mass_written"], out["mass_natural"] = mw, mn
+    except Exception as e:
+        out["mass_exc"] = type(e).__name__
     try:
         out["natural_density"] = None if f.density is None else f.natural_density
     except Exception as e:
